@@ -45,7 +45,7 @@ Empty == [
     prevDispErr |-> FALSE, carried |-> {},
     opted |-> {}, bs |-> <<>>, bhe |-> <<>>, synthWanted |-> {}, synthDone |-> {},
     pa |-> NoPA, lastPeret |-> [on |-> FALSE, s |-> 0, act |-> "continue", eff |-> "continue"],
-    idle |-> <<>>, idleOrder |-> <<>>, idlePhase |-> FALSE, idleRanNow |-> {},
+    idle |-> <<>>, idleOrder |-> <<>>, idlePhase |-> FALSE, idleRanNow |-> {}, cbTargets |-> {},
     dropSrc |-> <<>>, dropCb |-> <<>>, cbMade |-> <<>>, held |-> <<>>, recovered |-> <<>>,
     opStack |-> <<>>, regErrSeen |-> FALSE, faultSeen |-> FALSE, c16off |-> FALSE,
     peSynth |-> FALSE, cmpSnap |-> FALSE, lastSnap |-> NoSnap,
@@ -191,7 +191,12 @@ UpdOp(sh, ev) ==
                                      m |-> IF Has(ev, "m") THEN ev.m ELSE 0,
                                      c |-> IF Has(ev, "c") THEN ev.c ELSE 0,
                                      d |-> IF Has(ev, "d") THEN ev.d ELSE 0]),
-                      !.regErrSeen = FALSE]
+                      !.regErrSeen = FALSE,
+                      \* sources that a callback of the current dispatch operated on (C08: same effect as outside)
+                      !.cbTargets = IF ev.ctx # 0 /\ ev.op \in {"remove", "disable", "enable", "update", "insert"}
+                                    THEN @ \cup {IF Has(ev, "t") /\ TIdx(ev) \in DOMAIN sh.tokens
+                                                 THEN TokSrc(sh, TIdx(ev)) ELSE IF Has(ev, "s") THEN ev.s ELSE 0}
+                                    ELSE @]
   IN CASE ev.op = "remove" /\ Has(ev, "t") /\ LiveTok(sh, TIdx(ev)) ->
             LET s == TokSrc(sh, TIdx(ev)) IN
             Touch([base EXCEPT !.life[s] = "out", !.armed[s] = FALSE,
@@ -201,7 +206,7 @@ UpdOp(sh, ev) ==
                          !.synthSeen = FALSE, !.pendingAtWait = {}, !.touched = {}, !.fired = {}, !.shifted = {},
                          !.lastTimerDl = -2000000000, !.opted = Opted(sh),
                          !.bs = [s \in sh.S |-> 0], !.bhe = [s \in sh.S |-> 0],
-                         !.synthWanted = {}, !.synthDone = {}, !.idlePhase = FALSE, !.idleRanNow = {},
+                         !.synthWanted = {}, !.synthDone = {}, !.idlePhase = FALSE, !.idleRanNow = {}, !.cbTargets = {},
                          !.deadBefore = {<<sh.tokens[i].id, sh.tokens[i].ver>> : i \in {j \in DOMAIN sh.tokens : ~LiveTok(sh, j)}}
                                          \ {<<sh.tokens[i].id, sh.tokens[i].ver>> : i \in {j \in DOMAIN sh.tokens : LiveTok(sh, j)}}]
        [] OTHER -> base
@@ -565,6 +570,7 @@ FuzzyFds(sh) == UNION {RangeOf(sh.decl[s].fds) : s \in {x \in sh.S : sh.fuzzy[x]
 Occ(snap) == Cardinality({i \in DOMAIN snap.slots : snap.slots[i][3] = 1})
 SnapDiffers(a, b) == \/ a.epoll # b.epoll \/ a.life # b.life \/ a.heap # b.heap
                      \/ Occ(a) # Occ(b) \/ a.idles # b.idles \/ a.pending # b.pending
+SymDiffSet(A, B) == (A \ B) \cup (B \ A)
 LifeSetOf(snap) == {<<snap.life[i][1], snap.life[i][2]>> : i \in DOMAIN snap.life}
 
 ViolSnap(sh, ev) ==
@@ -572,7 +578,8 @@ ViolSnap(sh, ev) ==
   ELSE
   If(ev.pending # "continue", {<<"C09", "post_action_carried_over">>})
   \cup If(LifeSetOf(ev) # {KeyOf(sh, s) : s \in Opted(sh)} /\ ~(\E s \in sh.S : sh.fuzzy[s]),
-          {<<"C14", "lifecycle_set_wrong">>} \cup If(sh.faultSeen, {<<"C15", "bookkeeping_leak_after_fault">>}))
+          {<<"C14", "lifecycle_set_wrong">>} \cup If(sh.faultSeen, {<<"C15", "bookkeeping_leak_after_fault">>})
+          \cup If(sh.cbTargets # {} /\ ~sh.faultSeen, {<<"C08", "in_callback_operation_effect_differs">>}))
   \cup If(Len(ev.life) # Cardinality(LifeSetOf(ev)), {<<"C14", "lifecycle_set_duplicates">>})
   \cup If(Cardinality({i \in DOMAIN ev.slots : ev.slots[i][3] = 1}) # Cardinality({s \in sh.S : sh.life[s] = "in"}),
           {<<"C06", "occupied_slots_mismatch">>} \cup If(sh.faultSeen, {<<"C15", "slot_leak_after_fault">>}))
@@ -580,7 +587,10 @@ ViolSnap(sh, ev) ==
           /\ ~(\E s \in sh.S : sh.fuzzy[s] /\ IsTimer(sh, s)) /\ ~sh.prevDispErr,
           {<<"C05", "timer_heap_residue">>})
   \cup If(~sh.c16off /\ {e \in SnapEpoll6(ev) : e[1] \notin FuzzyFds(sh)} # {e \in ExpectedEpoll(sh) : e[1] \notin FuzzyFds(sh)},
-          {<<"C16", "kernel_registrations_differ">>})
+          {<<"C16", "kernel_registrations_differ">>}
+          \cup If(\E e \in SymDiffSet({x \in SnapEpoll6(ev) : x[1] \notin FuzzyFds(sh)}, {x \in ExpectedEpoll(sh) : x[1] \notin FuzzyFds(sh)}) :
+                     \E s \in sh.cbTargets \cap sh.S : e[1] \in RangeOf(sh.decl[s].fds),
+                  {<<"C08", "in_callback_operation_effect_differs">>}))
   \cup If(sh.cmpSnap /\ sh.lastSnap.valid /\ SnapDiffers(sh.lastSnap, ev),
           {<<"C15", "failed_insert_changed_loop_state">>})
   \cup If(~SnapSubsDistinct(ev), {<<"C16", "duplicate_sub_token">>, <<"C20", "duplicate_sub_token">>})
